@@ -295,9 +295,9 @@ class Engine:
             self.variant_owner = {}   # variant name -> [enum full paths]
             self._index()
             self._scan_enums()
-            Engine._index_cache[ck] = (self.alias, self.closures, self.enums, self.variant_owner)
+            Engine._index_cache[ck] = (self.alias, self.closures, self.enums, self.variant_owner, self.lazy)
         else:
-            self.alias, self.closures, self.enums, self.variant_owner = cached
+            self.alias, self.closures, self.enums, self.variant_owner, self.lazy = cached
         self.solver = z3.Solver()
         self.solver.set('timeout', query_timeout_ms)
         self.stats = dict(paths=0, queries=0, stmts=0, solver_s=0.0, calls=0)
@@ -317,7 +317,20 @@ class Engine:
 
     # ------------------------------------------------------------ indexing
     def _index(self):
+        self.lazy = {}
         for name, f in self.funcs.items():
+            if name.split('#')[0].endswith('deref::__static_ref_initialize') and f.file and f.src_line:
+                for root in self.srcroots:
+                    p_ = os.path.join(root, f.file)
+                    if os.path.exists(p_):
+                        try:
+                            ln = open(p_).read().split('\n')[f.src_line - 1]
+                        except Exception:
+                            ln = ''
+                        lm = re.search(r'static ref (\w+)', ln)
+                        if lm:
+                            self.lazy[lm.group(1)] = name
+                        break
             m = re.match(r'^(.*)<impl at ([^:]+):(\d+):\d+: \d+:\d+>::(.+)$', name)
             if m:
                 prefix, file, line, meth = m.groups()
@@ -473,9 +486,9 @@ class Engine:
             except PathEnd as p:
                 out = (p.kind, list(self.pc), p.msg, list(self.decisions), p.span)
             except Unsupported as u:
-                out = ('unsupported', list(self.pc), str(u), list(self.decisions), '')
+                out = ('unsupported', list(self.pc), str(u) + ' @ ' + ' < '.join(getattr(u, 'trace', [])), list(self.decisions), '')
             except MirSyntax as u:
-                out = ('unsupported', list(self.pc), 'MIR syntax: ' + str(u), list(self.decisions), '')
+                out = ('unsupported', list(self.pc), 'MIR syntax: ' + str(u) + ' @ ' + ' < '.join(getattr(u, 'trace', [])), list(self.decisions), '')
             for alt in self.pending:
                 stack.append(alt)
             yield out
@@ -563,6 +576,13 @@ class Engine:
             raise PathEnd('bound', 'call depth bound in ' + f.name)
         try:
             return self._run(f, args)
+        except (Unsupported, MirSyntax) as u:
+            tr = getattr(u, 'trace', None)
+            if tr is None:
+                tr = u.trace = []
+            if len(tr) < 6:
+                tr.append(f.name[-60:])
+            raise
         finally:
             self.depth -= 1
 
@@ -574,7 +594,8 @@ class Engine:
             fr[int(loc[1:])].v = a
         blocks = f.blocks
         bb = 'bb0'
-        fid = id(fr)
+        self._frame_ctr = getattr(self, '_frame_ctr', 0) + 1
+        fid = self._frame_ctr
         lc = self.loopcount
         unwinding = None
         while True:
@@ -1136,6 +1157,15 @@ class Engine:
 
     def do_call(self, callee, args, fr, dty=None):
         self.stats['calls'] += 1
+        stubs = self.env.get('stubs')
+        if stubs:
+            for pat, fn in stubs:
+                m = pat.match(callee)
+                if m:
+                    r = fn(self, m, args, fr, dty)
+                    if r is not NotImplemented:
+                        self.models_used.add('harness stub:' + pat.pattern[:60])
+                        return r
         h = self._callcache.get(callee)
         if h is None:
             from .models import MODELS
